@@ -107,6 +107,7 @@ class Contract:
         self.probe = d.get("probe", False)         # known-finding probe: a variant verified WITHOUT a usage assumption
         self.probe_only = d.get("probe_only", [])  # ... of which only these obligations (substrings) are reported
         self.drop_callee_ensures = d.get("drop_callee_ensures", {})   # callee contract -> ensures-name prefixes not assumed
+        self.no_wf = d.get("no_wf", False)        # an initialiser: the receiver's well-formedness is established here, not assumed at entry
         self.prefer = d.get("prefer")             # "cvc5": try cvc5 before z3 on this function's obligations
         self.ctor = d.get("ctor", False)          # constructor: invariant asserted at exit only
         self.ghost_exit = d.get("ghost_exit", {}) # ghost assignments executed at every normal exit
@@ -403,6 +404,16 @@ class Task:
             val = self.wrap_callable(st, val, sort)
         if isinstance(val, VEmptyDict) and isinstance(sort, MapSort):
             val = map_empty(sort.key, sort.val)
+        if isinstance(val, VPyList) and isinstance(sort, SeqSort):
+            seq = seq_empty(sort.elem)
+            for it in val.items:
+                if isinstance(it, VPyTuple) and isinstance(sort.elem, TupleSort) and len(sort.elem.items) == len(it.items):
+                    it = vtuple([self.wrap_callable(st, x, es) if isinstance(x, PyVal) and isinstance(es, RefSort) and "callable_of" in self.ctx.classes.get(es.cls, {}) else x
+                                 for x, es in zip(it.items, sort.elem.items)])
+                elif isinstance(it, PyVal) and isinstance(sort.elem, RefSort) and "callable_of" in self.ctx.classes.get(sort.elem.cls, {}):
+                    it = self.wrap_callable(st, it, sort.elem)
+                seq = seq_append(seq, coerce(it, sort.elem))
+            val = seq
         val = coerce(val, sort)
         arrs = self.heap_arrays(st, dcls, field, sort)
         st.heap[(dcls, field)] = [z3.Store(a, obj.z, c) for a, c in zip(arrs, val.comps)]
@@ -421,7 +432,9 @@ class Task:
                 self.write_field(st, w, co["tag"], vint(co["methods"][val.contract]))
                 return w
             raise Unsupported(f"callable {val} stored where the sidecar expects one of {list(co['methods'])}")
-        if isinstance(val, VFunc) and val.contract == co["method"] and val.bound_self is not None:
+        if isinstance(val, VDotted) and val.path in co.get("dotted", []):
+            return w        # a library function named in the sidecar (no receiver)
+        if isinstance(val, VFunc) and val.contract == co.get("method") and val.bound_self is not None:
             self.write_field(st, w, link, val.bound_self)
         elif isinstance(val, VPartial) and val.func.contract in co.get("plain", []):
             self.write_field(st, w, link, VNONE)
@@ -507,7 +520,7 @@ class Task:
         env = dict(st.locals)
         # well-formedness + invariant + requires
         if self_v is not None:
-            for cn in self.ctx.mro(self.receiver):
+            for cn in (self.ctx.mro(self.receiver) if not c.no_wf else []):
                 for k, t in self.ctx.classes.get(cn, {}).get("wf", {}).items():
                     st.assume(self.spec_bool(st, t, env, self_cls=self.receiver))
             if c.inv and not c.ctor:
@@ -561,6 +574,10 @@ class Task:
                 env["result"] = o.val
             else:
                 env["result"] = VNONE
+            if c.returns and c.returns != "py" and isinstance(env["result"], V) and env["result"].sort == NONE:
+                rs_ = parse_sort(c.returns)
+                if isinstance(rs_, (RefSort, OptSort)):
+                    env["result"] = coerce(env["result"], rs_)      # `return None` from a function declared to return an object / Optional
             for tgt, t in c.ghost_exit.items():
                 val = self.spec(st, t, env, self.old, self.receiver)
                 if "." in tgt:
@@ -764,6 +781,8 @@ class Task:
                     self.dropped.add("item stores into external/opaque containers (e.g. sys.modules[...] = ...)")
                     res.append(s2)
                     continue
+                if isinstance(v, VPyTuple) and v.items and all(isinstance(x, V) for x in v.items):
+                    v = vtuple(v.items)
                 if isinstance(cont, VEmptyDict):
                     if not (isinstance(idx, V) and isinstance(v, V)):
                         raise Unsupported(f"dict of python-level values at line {t.lineno}")
@@ -1340,7 +1359,7 @@ class Task:
     def ev(self, node, st):
         """-> list of (state, value, exc-name-or-None)"""
         m = getattr(self, "ex_" + type(node).__name__, None)
-        if self.ctx.expr_overrides and isinstance(node, (ast.Subscript, ast.Call, ast.BinOp, ast.Attribute)):
+        if self.ctx.expr_overrides and isinstance(node, (ast.Subscript, ast.Call, ast.BinOp, ast.Attribute, ast.Lambda, ast.Compare, ast.ListComp, ast.DictComp, ast.GeneratorExp, ast.SetComp)):
             ov = self.ctx.expr_overrides.get((self.contract.source, ast.unparse(node)))
             if ov is not None:
                 cn, argx = ov
@@ -1610,6 +1629,9 @@ class Task:
 
     def contains(self, st, a, b, node):
         if isinstance(b, VPyTuple):
+            if isinstance(a, V) and isinstance(a.sort, RefSort) and b.items and all(isinstance(x, (VBuiltin, VDotted)) for x in b.items):
+                # membership in a tuple of classes named in the source: identity with their (uninterpreted) class constants
+                return z3.Or(*[a.z == z3.Const(f"class.builtins.{x.name}" if isinstance(x, VBuiltin) else f"class.{x.path}", Ref) for x in b.items])
             return z3.Or(*[v_eq(a, x) for x in b.items]) if b.items else z3.BoolVal(False)
         if isinstance(b, V) and isinstance(b.sort, MapSort):
             if isinstance(a, V) and isinstance(a.sort, OptSort):
@@ -1659,6 +1681,9 @@ class Task:
         for s2, vals, e in self.ev_many(node.elts, st):
             if e is not None:
                 res.append((s2, None, e))
+                continue
+            if any(isinstance(v, VPyTuple) and any(isinstance(i, PyVal) for i in v.items) or (isinstance(v, PyVal) and not isinstance(v, VPyTuple)) for v in vals):
+                res.append((s2, VPyList(vals), None))       # python-level elements (callables ...): given a sort when stored into a declared field
                 continue
             vals = [vtuple(v.items) if isinstance(v, VPyTuple) else v for v in vals]
             seq = seq_empty(vals[0].sort)
@@ -2240,6 +2265,9 @@ class Task:
                 res.append((s2, vint(z3.If(z3.Or(x >= 0, z3.ToReal(fl) == x), fl, fl + 1)), None))
             elif name == "int" and isinstance(vals[0], V) and vals[0].sort == INT:
                 res.append((s2, vals[0], None))
+            elif name == "issubclass" and len(vals) == 2 and isinstance(vals[0], V) and isinstance(vals[0].sort, RefSort) and isinstance(vals[1], (VDotted, VBuiltin)):
+                cc = z3.Const(f"class.builtins.{vals[1].name}" if isinstance(vals[1], VBuiltin) else f"class.{vals[1].path}", Ref)
+                res.append((s2, vbool(ISSUBCLASS(vals[0].z, cc)), None))       # uninterpreted: the class relation is the interpreter's
             elif name == "bool":
                 res.append((s2, vbool(truth(vals[0])), None))
             elif name == "list" and len(vals) == 1 and isinstance(vals[0], V) and isinstance(vals[0].sort, OptSort) and isinstance(vals[0].sort.inner, SeqSort):
@@ -2299,7 +2327,7 @@ class Task:
                     continue
                 raise Unsupported(f"{name}({cls}, {attr!r}): attribute not declared in the sidecar (line {node.lineno})")
             # computed attribute name: dispatch to the sidecar's contract for this function
-            cn = self.ctx.dyn_getattr.get((self.contract.source, name)) or self.ctx.dyn_getattr.get(name)
+            cn = self.ctx.dyn_getattr.get((self.contract.source, f"{name}/{len(node.args)}")) or self.ctx.dyn_getattr.get((self.contract.source, name)) or self.ctx.dyn_getattr.get(name)
             if cn is None:
                 raise Unsupported(f"{name} with a computed name and no DYN_GETATTR contract (line {node.lineno})")
             for s3, vals, e3 in self.ev_many(node.args[1:], s2):
@@ -2334,12 +2362,16 @@ class Task:
                 for s3, tv, e3 in self.ev(tn, s2):
                     if e3 is not None:
                         res.append((s3, None, e3)); continue
+                    if isinstance(tv, VPyTuple) and tv.items and all(isinstance(x, (VBuiltin, VDotted)) or (isinstance(x, V) and isinstance(x.sort, RefSort)) for x in tv.items):
+                        # isinstance(o, (A, B, ...)): any of them
+                        clsref = lambda x: z3.Const(f"class.builtins.{x.name}", Ref) if isinstance(x, VBuiltin) else (z3.Const(f"class.{x.path}", Ref) if isinstance(x, VDotted) else x.z)
+                        res.append((s3, vbool(z3.And(obj.z != null, z3.Or(*[ISINSTANCE(obj.z, clsref(x)) for x in tv.items]))), None)); continue
                     if isinstance(tv, VBuiltin):
-                        res.append((s3, vbool(ISINSTANCE(obj.z, z3.Const(f"class.builtins.{tv.name}", Ref))), None)); continue
+                        res.append((s3, vbool(z3.And(obj.z != null, ISINSTANCE(obj.z, z3.Const(f"class.builtins.{tv.name}", Ref)))), None)); continue      # None is an instance of none of the classes used
                     if isinstance(tv, V) and isinstance(tv.sort, RefSort):
-                        res.append((s3, vbool(ISINSTANCE(obj.z, tv.z)), None))
+                        res.append((s3, vbool(z3.And(obj.z != null, ISINSTANCE(obj.z, tv.z))), None))
                     elif isinstance(tv, VDotted):
-                        res.append((s3, vbool(ISINSTANCE(obj.z, z3.Const(f"class.{tv.path}", Ref))), None))
+                        res.append((s3, vbool(z3.And(obj.z != null, ISINSTANCE(obj.z, z3.Const(f"class.{tv.path}", Ref)))), None))
                     else:
                         raise Unsupported(f"isinstance against {tv}")
                 continue
@@ -2352,6 +2384,7 @@ FRESH = z3.Function("fresh_object", Ref, z3.BoolSort())
 CALLABLE = z3.Function("is_callable", Ref, z3.BoolSort())
 ISINSTANCE = z3.Function("isinstance", Ref, Ref, z3.BoolSort())
 TYPE_OF = z3.Function("type_of", Ref, Ref)
+ISSUBCLASS = z3.Function("issubclass", Ref, Ref, z3.BoolSort())
 
 
 def _base_name(attr_node):
@@ -2374,6 +2407,12 @@ class VDictOf(PyVal):
 
     def __init__(self, obj):
         self.obj = obj
+
+
+class VPyList(PyVal):
+    """a list literal with python-level elements (bound methods, tuples of them)"""
+    def __init__(self, items):
+        self.items = list(items)
 
 
 class VEmptyDict(PyVal):
@@ -2702,7 +2741,7 @@ class SpecEval:
             return vbool(z3.PrefixOf(b.z, a.z))
         if name == "isinstance":
             a, b = self.ev(n.args[0]), self.ev(n.args[1])
-            return vbool(ISINSTANCE(a.z, b.z))
+            return vbool(z3.And(a.z != null, ISINSTANCE(a.z, b.z)))       # same reading as in code: None is an instance of none of the classes used
         if name == "is_type":
             return vbool(ISINSTANCE(self.ev(n.args[0]).z, z3.Const("class.builtins.type", Ref)))
         if name == "cast":
